@@ -5,6 +5,7 @@ import (
 	"encoding/json"
 	"fmt"
 	"sort"
+	"sync"
 	"time"
 
 	ipfslog "berty.tech/go-ipfs-log"
@@ -186,4 +187,78 @@ func syncFrom(c *world.Cluster, dst, src int) error {
 		}
 		return c.W.Quiescent([]iface.Store{c.Stores[dst]}, nil)
 	}, []iface.Store{c.Stores[dst]}, nil, claimTimeout)
+}
+
+// noteOwnWrite registers one entry written on replica w whose hash the write call returned; its causal
+// past is what the replica held before the call.
+func (tr *tracker) noteOwnWrite(s iface.Store, w int, before map[string]bool, hash string, op model.Op) error {
+	e, ok := s.OpLog().Get(mustCid(hash))
+	if !ok {
+		return fmt.Errorf("the entry returned by the write call is not in the log")
+	}
+	tr.ents[hash] = entOf(e)
+	tr.ops[hash] = op
+	tr.author[hash] = w
+	p := map[string]bool{}
+	for k := range before {
+		p[k] = true
+	}
+	tr.past[hash] = p
+	tr.seq = append(tr.seq, hash)
+	return nil
+}
+
+// writeWithMergeInside runs write() on replica w and, while that call sits between persisting its head
+// and refreshing its view (hook store.addop.persisted), lets replica w merge everything replica src
+// holds; then the write call resumes. Returns what write returned.
+func writeWithMergeInside(cl *world.Cluster, w, src int, write func() (string, error)) (hash string, parkedOK bool, err error) {
+	s := cl.Stores[w]
+	gate := make(chan struct{})
+	parked := make(chan struct{}, 1)
+	var once sync.Once
+	remove := world.AddHook(func(name string, subject interface{}, args []interface{}) {
+		if name != "store.addop.persisted" || subject != interface{}(s.Replicator()) {
+			return
+		}
+		first := false
+		once.Do(func() { first = true })
+		if first {
+			parked <- struct{}{}
+			<-gate
+		}
+	})
+	defer remove()
+	type res struct {
+		h   string
+		err error
+	}
+	done := make(chan res, 1)
+	go func() {
+		h, err := write()
+		done <- res{h, err}
+	}()
+	select {
+	case <-parked:
+		parkedOK = true
+	case r := <-done:
+		close(gate)
+		return r.h, false, r.err
+	case <-time.After(20 * time.Second):
+		close(gate)
+		return "", false, world.ErrInconclusive
+	}
+	serr := syncFrom(cl, w, src)
+	close(gate)
+	select {
+	case r := <-done:
+		if r.err != nil {
+			return r.h, true, r.err
+		}
+		if serr != nil {
+			return r.h, true, serr
+		}
+		return r.h, true, nil
+	case <-time.After(20 * time.Second):
+		return "", true, fmt.Errorf("the write call did not return after the merge inside it completed")
+	}
 }
